@@ -187,7 +187,7 @@ class Run:
             seen_kf.setdefault(k, []).append(wit)
         if unknown:
             os.makedirs(rdir, exist_ok=True)
-        for k, wits in list(seen_kf.items())[:25]:
+        for k, wits in list(seen_kf.items())[:80]:
             wit = wits[0]
             path = os.path.join(rdir, h(wit) + ".json")
             with open(path, "w") as f:
